@@ -2,6 +2,12 @@
 import itertools
 import json
 import multiprocessing as mp
+
+
+def _pool_init():
+    from .explorer import _watch_parent
+    _watch_parent()
+
 import os
 import time
 
@@ -39,9 +45,12 @@ C14_ALPHABET = [
     ["povm", "ce:h1", ["A.p", "B.p"], "dil3", False, True],
     ["measure", "ce:h1", ["A.p", "B.p"], True, False],
     ["measure", "ce:h1", ["B.p", "A.f", "A.p"], False, True],
+    ["measure", "ce:h1", ["A.f", "B.p"], True, False],
+    ["measure", "ce:h1", ["B.p", "B.f"], True, True],
 ]
 # second world: the two polarizations already share a matrix-level (mixed) product state
-C14_PREFIX = [["op", "ce:h1", ["A.p", "B.p"], "CX", None], ["kraus", "ce:h1", ["A.p"], "dephase", None]]
+C14_PREFIX = [["op", "ce:h1", ["A.p", "B.p"], "CX", None], ["kraus", "ce:h1", ["A.p"], "dephase", None],
+              ["op", "ce:h1", ["A.f", "B.f"], "BS", {"eta": PI / 4}]]
 DRAWS = ("measure", "povm")
 
 
@@ -152,7 +161,7 @@ def run_c14(tier, seed):
     errors = []
     results = {}
     runs = 0
-    with ctx.Pool(nproc) as pool:
+    with ctx.Pool(nproc, initializer=_pool_init) as pool:
         for r in pool.imap_unordered(_c14_task, tasks, chunksize=4):
             if "error" in r:
                 errors.append(r)
@@ -165,7 +174,7 @@ def run_c14(tier, seed):
                                          "program": {"actions": [(C14_ALPHABET[i] if i >= 0 else "PREFIX CX+dephase") for i in r["prog"]], "seed": r["seed"]}}})
     # (b) fresh processes: a second, newly spawned pool recomputes a slice of the programs
     fresh_tasks = tasks if not q else tasks[:: max(1, len(tasks) // 200)]
-    with ctx.Pool(nproc) as pool:
+    with ctx.Pool(nproc, initializer=_pool_init) as pool:
         for r in pool.imap_unordered(_c14_task, fresh_tasks, chunksize=4):
             if "error" in r:
                 errors.append(r)
@@ -379,7 +388,7 @@ def run_c15(tier, seed):
     viol = []
     seqs = applies = distinct = 0
     sample = None
-    with ctx.Pool(nproc) as pool:
+    with ctx.Pool(nproc, initializer=_pool_init) as pool:
         for r in pool.imap_unordered(_c15_task, tasks, chunksize=1):
             seqs += r["sequences"]
             applies += r["applies"]
